@@ -119,7 +119,7 @@ def pOp (s : String) : Option (Op Nat Nat BF) :=
   else none
 
 def fBlocks (bs : List (List BF)) : String :=
-  if bs.isEmpty then "-" else String.intercalate "/" (bs.map (fListD fBF))
+  if bs.isEmpty then "~" else String.intercalate "/" (bs.map (fListD fBF))
 
 def fRes : Res Nat Nat BF → String
   | .unit => "U"
